@@ -39,7 +39,7 @@ structure ServerResult where
   deriving DecidableEq, Repr, Inhabited
 structure CertRevocationResult where
   Result : Result
-  ServerResults : List ServerResult
+  ServerResults : List (Option ServerResult)   -- []*ServerResult: an entry may be nil
   RevocationMethod : RevocationMethod
   deriving DecidableEq, Repr, Inhabited
 end revocationresult
